@@ -49,6 +49,8 @@ PeerInit(NP, N, spec) ==
     calls  |-> 0,                       \* ticks/polls since the last drain
     lastWaitCur |-> -1000,
     alive  |-> TRUE,
+    issued |-> [q \in 0..N-1 |-> {}],     \* handshake nonces sent to q and not yet answered
+    matched |-> [q \in 0..N-1 |-> 0],     \* replies of q that answered an issued nonce (round trips)
     desyFirst |-> -1,                   \* first frame reported by a DesyncDetected event
     lastRes |-> "",                     \* result of the peer's last advance_frame
     mark   |-> -1000000,                \* current frame when the fault phase ended (C05)
@@ -74,7 +76,8 @@ InitRun(c, viol, stats, run) ==
        corrupt |-> \E p \in 0..N-1 : Has(pc[p], "corrupt_from"),
        corruptFrom |-> IF \E p \in 0..N-1 : Has(pc[p], "corrupt_from")
                        THEN pc[CHOOSE p \in 0..N-1 : Has(pc[p], "corrupt_from")].corrupt_from ELSE -1,
-       transient |-> Get(c, "transient", FALSE),   \* every fault of this run ends before the timeout
+       transient |-> Get(c, "transient", FALSE),
+       noInterrupt |-> Get(c, "no_interrupt", FALSE),   \* both sides poll at least every keep-alive interval   \* every fault of this run ends before the timeout
        marked |-> FALSE, minProgress |-> 0,
        cf |-> [p \in 0..N-1 |-> Get(pc[p], "corrupt_from", 1000000000)],  \* game of p is corrupt from this frame
        owner |-> owner,
@@ -243,7 +246,20 @@ FinalF(gg, p, pe, f, hi, r) ==
 HeardUpdate(pe, r, N) ==
   LET from(q) == \E i \in 1..Len(r.rxf) : r.rxf[i] = q
       dr(q)   == Has(r, "rxi") /\ \E i \in 1..Len(r.rxi) : r.rxi[i][1] = q /\ r.rxi[i][4]
-  IN [pe EXCEPT !.sil   = [q \in 0..N-1 |-> IF from(q) THEN 0 ELSE r.t - pe.heard[q]],
+      srx == Get(r, "srx", <<>>)
+      stx == Get(r, "stx", <<>>)
+      \* replies consumed in this call answer nonces issued in earlier calls (each at most once)
+      RECURSIVE Match(_, _, _)
+      Match(iss, cnt, i) ==
+        IF i > Len(srx) THEN <<iss, cnt>>
+        ELSE LET q == srx[i][1]  n == srx[i][2]
+             IN IF q \in 0..N-1 /\ srx[i][3] = 1 /\ n \in iss[q]
+                THEN Match([iss EXCEPT ![q] = @ \ {n}], [cnt EXCEPT ![q] = @ + 1], i + 1)
+                ELSE Match(iss, cnt, i + 1)
+      mm == Match(pe.issued, pe.matched, 1)
+      iss2 == [q \in 0..N-1 |-> mm[1][q] \cup {stx[i][2] : i \in {j \in 1..Len(stx) : stx[j][1] = q}}]
+  IN [pe EXCEPT !.issued = iss2, !.matched = mm[2],
+                !.sil   = [q \in 0..N-1 |-> IF from(q) THEN 0 ELSE r.t - pe.heard[q]],
                 !.heard = [q \in 0..N-1 |-> IF from(q) THEN r.t ELSE pe.heard[q]],
                 !.drq   = [q \in 0..N-1 |-> pe.drq[q] \/ dr(q)],
                 !.calls = Min2(@ + 1, 2)]
@@ -421,7 +437,13 @@ EvFold(gg, p, r, acc, e) ==
                     V("C12", r.n, "interrupted-wrong-remaining-time", <<p, q, e[3]>>))
           trV == When(gg.transient /\ k = "Disc",
                       V("C05", r.n, "disconnected-although-every-fault-was-transient", <<p, q>>))
-      IN [acc EXCEPT !.pe.evs[q] = IF s1[1] = "bad" THEN s0 ELSE s1, !.vs = @ \o ordV \o timeV \o trV]
+          hsV == When(~pe.lossy /\ k = "Sed" /\ pe.matched[q] < NumSyncRoundTrips,
+                      V("C12", r.n, "synchronized-without-full-handshake", <<p, q, pe.matched[q]>>))
+                 \o When(~pe.lossy /\ k = "Sing" /\ pe.matched[q] < e[4],
+                         V("C12", r.n, "synchronizing-count-exceeds-matched-round-trips", <<p, q, e[4], pe.matched[q]>>))
+                 \o When(k = "Intr" /\ gg.noInterrupt,
+                         V("C12", r.n, "interrupted-although-both-sides-keep-polling", <<p, q, pe.sil[q]>>))
+      IN [acc EXCEPT !.pe.evs[q] = IF s1[1] = "bad" THEN s0 ELSE s1, !.vs = @ \o ordV \o timeV \o trV \o hsV]
     ELSE IF k = "Wait" THEN
       [acc EXCEPT
          !.vs = @ \o When(e[2] < 3, V("C15", r.n, "wait-recommendation-below-3", <<p, e[2]>>))
@@ -460,8 +482,15 @@ EvLine(gg, r) ==
       exact == pe0.calls = 1 /\ ~pe0.lossy
       due == IF exact THEN DueV(gg, p, acc.pe, 0) ELSE <<>>
       due2 == [i \in 1..Len(due) |-> <<due[i][1], r.n, due[i][3], due[i][4]>>]
+      remotes == IF gg.isSpec[p] THEN {gg.host[p]}
+                 ELSE ({gg.owner[h] : h \in 0..gg.NP-1} \ {p}) \cup {gg.specs[p][i] : i \in 1..Len(gg.specs[p])}
+      allSynced == \A q \in remotes : acc.pe.evs[q][1] # "sync"
+      runV == When(exact /\ acc.pe.run # allSynced,
+                   V("C12", r.n, "running-state-differs-from-handshake-completion", <<p, acc.pe.run, allSynced>>))
+              \o When(exact /\ \E q \in remotes : acc.pe.evs[q][1] = "sync" /\ acc.pe.matched[q] >= NumSyncRoundTrips,
+                      V("C12", r.n, "full-handshake-but-not-synchronized", <<p>>))
   IN AddViol([gg EXCEPT !.pr[p] = [acc.pe EXCEPT !.calls = 0], !.stats.events = @ + Len(r.ev)],
-             acc.vs \o due2)
+             acc.vs \o due2 \o runV)
 
 ---------------------------------------------------------------------------
 PollLine(gg, r) ==
